@@ -28,10 +28,11 @@ GRIDS = {
     'utc': dict(T=4, freq='h', tz='UTC'),
     'q15': dict(T=8, freq='15min', tz=None),
     'short': dict(T=2, freq='h', tz=None),
-    'dunit': dict(T=4, freq='h', tz=None, unit='d'),      # same instants, main time unit 'd' (rates per day, durations in days)
+    'dunit': dict(T=4, freq='h', tz=None, unit='d'),
+    'day2': dict(T=4, freq='h', tz=None, shift_days=1),      # same instants, main time unit 'd' (rates per day, durations in days)
 }
-OPS = ['h', 'cet', 'utc', 'q15', 'short', 'dunit', 'same', 'split', 'costs']
-FINALS = ['h', 'cet', 'q15', 'short', 'utc', 'dunit']
+OPS = ['h', 'cet', 'utc', 'q15', 'short', 'dunit', 'same', 'split', 'costs', 'frame']
+FINALS = ['h', 'cet', 'q15', 'short', 'utc', 'dunit', 'frame_day2']
 PORTFOLIOS = ['dicts', 'wrappers', 'orderbook', 'classes', 'linked']
 NAIVE_ONLY = {'orderbook', 'classes', 'linked'}      # order dates are naive: EAO compares them with the grid points as they are
 
@@ -65,7 +66,8 @@ def mk_grid(key):
     g = GRIDS[key]
     eao = lift.import_eao()
     step = pd.Timedelta(g['freq']) if any(ch.isdigit() for ch in g['freq']) else pd.Timedelta(1, g['freq'])
-    return eao.assets.Timegrid(shapes.T0, (pd.Timestamp(shapes.T0) + g['T'] * step).to_pydatetime(), freq=g['freq'], timezone=g['tz'], main_time_unit=g.get('unit', 'h'))
+    t0_ = pd.Timestamp(shapes.T0) + pd.Timedelta(days=g.get('shift_days', 0))
+    return eao.assets.Timegrid(t0_.to_pydatetime(), (t0_ + g['T'] * step).to_pydatetime(), freq=g['freq'], timezone=g['tz'], main_time_unit=g.get('unit', 'h'))
 
 
 def mk_prices(D, key):
@@ -151,6 +153,12 @@ def apply_op(pf, op, D, grids):
         g = mk_grid(op)
         grids[op] = g
         return pf.setup_optim_problem(mk_prices(D, op), g)
+    if op in ('frame', 'frame_day2'):
+        # already gridded price data as ONE pandas DataFrame object (default index) that the user re-uses for every grid of that length
+        if 'frame' not in grids:
+            grids['frame'] = pd.DataFrame(mk_prices(D, 'h'))
+        g = mk_grid('h') if op == 'frame' else mk_grid('day2')
+        return pf.setup_optim_problem(g.prices_to_grid(grids['frame']), g)        # as eao.optimize(portf, timegrid, data) does
     if op == 'same':
         # a second set-up on the very grid object a previous call used (or a new hourly grid if none)
         g = grids.get('h') or mk_grid('h')
@@ -174,20 +182,28 @@ def scenario(D, pfk, history, final):
     for op in history:
         apply_op(pf, op, D, grids)
     # final call: on the grid object an earlier call may have used, with every cache poisoned
-    g = grids.get(final) or mk_grid(final)
+    fkey = 'day2' if final == 'frame_day2' else final
+    g = grids.get(fkey) or mk_grid(fkey)
+    if final == 'frame_day2':
+        # the DataFrame object an earlier call may have been given, now for another day
+        pr_hist = grids.get('frame') if grids.get('frame') is not None else pd.DataFrame(mk_prices(D, 'h'))
+        pr_fresh = pd.DataFrame(mk_prices(D, 'h'))
+    else:
+        pr_hist = pr_fresh = None
     if hasattr(g, 'restricted'):
         g.restricted = Poison()
     if hasattr(g, 'discount_factors'):
         g.discount_factors = Poison()
     fresh = mk_portfolio(D, pfk)
     try:
-        op_fresh = fresh.setup_optim_problem(mk_prices(D, final), mk_grid(final))
+        gf = mk_grid(fkey)
+        op_fresh = fresh.setup_optim_problem(gf.prices_to_grid(pr_fresh) if pr_fresh is not None else mk_prices(D, final), gf)
     except sym.Realisation:
         raise
     except Exception as e:  # noqa: BLE001 - the final call is rejected for a fresh object as well: compare the behaviour
         op_fresh = e
     try:
-        op_hist = pf.setup_optim_problem(mk_prices(D, final), g)
+        op_hist = pf.setup_optim_problem(g.prices_to_grid(pr_hist) if pr_hist is not None else mk_prices(D, final), g)
     except sym.Realisation:
         raise
     except Exception as e:  # noqa: BLE001
